@@ -5,6 +5,7 @@
   of the enclosure formula for uncertain orientations is `C04_extent_*` below.
 -/
 import CRModel.Occupancy
+import CRModel.Place
 import Mathlib.Tactic.Linarith
 import Mathlib.Tactic.Ring
 import Mathlib.Algebra.Order.Field.Rat
@@ -416,9 +417,79 @@ theorem C04_enclosure : C04_enclosure_full := by
     · exact C04_extent_le_max w l |c| |s| cw sw hw hl hu' huw hcw hsw h
   exact C04_enclosure_box l w ls ws _ _ c s x y px py hx hy hpx hpy hextl hextw
 
+/-- The rectangle the model function `CR.Place.enclose` builds (tied to the CURRENT source of `occupancy_shape_from_state` by
+    T04 `tie_uncertain_enclosure`) has exactly the half-extents `C04_enclosure` bounds: every point of the centred `l × w` box,
+    turned by any admissible deviation and displaced within the position region, lies inside it. -/
+theorem C04_enclose_encloses (l w ls ws c s cl sl cw sw x y px py psi : Rat) (ctr : CR.Rigid.Pt)
+    (hl : 0 ≤ l) (hw : 0 ≤ w) (hx : |x| ≤ l / 2) (hy : |y| ≤ w / 2) (hpx : |px| ≤ ls / 2) (hpy : |py| ≤ ws / 2)
+    (hu : c * c + s * s = 1) (hul : cl * cl + sl * sl = 1) (hcl : 0 ≤ cl) (hsl : 0 ≤ sl)
+    (huw : cw * cw + sw * sw = 1) (hcw : 0 ≤ cw) (hsw : 0 ≤ sw)
+    (hcaseL : (|s| ≤ sl ∧ l * sl ≤ w * cl) ∨ l * sl = w * cl)
+    (hcaseW : (|s| ≤ sw ∧ w * sw ≤ l * cw) ∨ w * sw = l * cw) :
+    ∃ L W, CR.Place.enclose cl sl cw sw l w ls ws ctr psi = .rect L W ctr psi ∧
+      |px + (c * x - s * y)| ≤ L / 2 ∧ |py + (s * x + c * y)| ≤ W / 2 := by
+  have habs : ∀ z : Rat, CR.Place.absQ z = |z| := by
+    intro z
+    unfold CR.Place.absQ
+    split
+    · rename_i h; rw [abs_of_neg h]
+    · rename_i h; rw [abs_of_nonneg (not_lt.1 h)]
+  refine ⟨_, _, rfl, ?_⟩
+  rw [habs, habs]
+  exact C04_enclosure l w ls ws c s cl sl cw sw x y px py hl hw hx hy hpx hpy hu hul hcl hsl huw hcw hsw hcaseL hcaseW
+
 /-! What is NOT proved: that shapely's `bounds` of a polygon / rotated position region bound it (GEOS), and the
     trigonometric facts tying `(c, s, cl, sl, cw, sw)` to angles (`cos`, `sin`, `arctan`, `min`, monotonicity of sine on
     [0, π/2]). These are validated by sampling admissible poses in the harness (a test, not a theorem). -/
+
+/-! ### the occupancy set of a trajectory prediction, entry by entry
+  `predOccAt (.traj _ ts)` scans the time steps of the states; the code scans the occupancy set `_create_occupancy_set` built
+  (T04 `tie_create_occupancy_set` / `tie_occSetOf`: entry `i` = (time step of state `i`, shape placed at state `i`)) with
+  `Prediction.occupancy_at_time_step` (T04 `tie_prediction_occupancy`).  The two agree for EVERY list of time steps. -/
+
+theorem findIdx_occSetFrom (t : Int) : ∀ (ts : List Int) (i k : Nat),
+    findIdx (fun e : TS × Occ => e.1.contains t) (occSetFrom ts i) k = findIdx (fun s => s == t) ts k
+  | [], _, _ => rfl
+  | a :: r, i, k => by
+    have ih := findIdx_occSetFrom t r (i + 1) (k + 1)
+    simp only [occSetFrom, findIdx]
+    rw [ih]
+    rfl
+
+theorem occSetFrom_getElemOpt : ∀ (ts : List Int) (i j : Nat),
+    (occSetFrom ts i)[j]? = ts[j]?.map (fun t => (TS.step t, Occ.placed (i + j)))
+  | [], _, _ => by simp [occSetFrom]
+  | a :: r, i, 0 => by simp [occSetFrom]
+  | a :: r, i, j + 1 => by
+    simp only [occSetFrom, List.getElem?_cons_succ]
+    rw [occSetFrom_getElemOpt r (i + 1) j]
+    congr 1; funext t; congr 2; omega
+
+/-- Looking `t` up in the occupancy set of a trajectory prediction gives the shape placed at the FIRST state whose own time
+    step is `t` — `predOccAt`; no entry is skipped, shifted or paired with another state's time step. -/
+theorem C04_occset_lookup (t0 : Int) (ts : List Int) (t : Int) :
+    lookupOcc (occSetOf ts) t = predOccAt (.traj t0 ts) t := by
+  simp only [lookupOcc, predOccAt, occSetOf]
+  rw [findIdx_occSetFrom]
+  cases h : findIdx (fun s => s == t) ts 0 with
+  | none => rfl
+  | some r =>
+    obtain ⟨i, hr, hi, _, _⟩ := (findIdx_spec _ ts 0 r).1 h
+    have hri : r = i := by omega
+    subst hri
+    simp [occSetFrom_getElemOpt, List.getElem?_eq_getElem hi]
+
+example : lookupOcc (occSetOf [3, 4, 5]) 4 = some (.placed 1) := by decide
+
+/-- `Scenario.obstacle_by_id` (model `Scn.byId`, tied to the source in T04): the obstacle found carries the id and is a member;
+    an id no obstacle carries gives `none`. -/
+theorem C04_scn_byId (s : Scn) (i : Nat) :
+    (∀ x, s.byId i = some x → x.1 = i ∧ x ∈ s.obstacles) ∧ (s.byId i = none ↔ ∀ x ∈ s.obstacles, x.1 ≠ i) := by
+  unfold Scn.byId
+  constructor
+  · intro x hx
+    exact ⟨by simpa using List.find?_some hx, List.mem_of_find?_eq_some hx⟩
+  · simp [List.find?_eq_none]
 
 /-! ### non-vacuity -/
 
